@@ -55,10 +55,21 @@ def listsOut (ents : List Ent) : String :=
   " AG=" ++ String.join ((numericOrder ents .attrgroup).map (fun n => toString n ++ ",")) ++
   " MD=" ++ String.join ((numericOrder ents .md).map (fun n => toString n ++ ","))
 
+/-- name-level resolution of the comdat and attribute-group references of global variables and functions: for the i-th entity of its kind (textual
+    order) the comdat names and attribute-group IDs its definition mentions -/
+def refsOut (ents : List Ent) : String :=
+  let one (tag : String) (ns : NS) : List String :=
+    ((ents.filter (·.ns == ns)).zipIdx).map fun (e, i) =>
+      let cs := (e.refs.filter (·.1 == .comdat)).map (fun r => hexName r.2)
+      let ags := (e.refs.filter (·.1 == .attrgroup)).map (·.2)
+      s!"{tag}{i}:C=" ++ String.intercalate "," cs ++ ";A=" ++ String.intercalate "," ags
+  String.intercalate " " (one "G" .global ++ one "F" .func)
+
 def modOps (op : String) (a : List String) : Option String :=
   match op, a with
   | "mod.outcome", [sk, _] => let e := parseSkel sk; some (if (translate e e).isOk then "ok" else "error")
   | "mod.lists", [sk, _] => let e := parseSkel sk; some (if (translate e e).isOk then "ok " ++ listsOut e else "error")
+  | "mod.refs", [sk, _] => let e := parseSkel sk; some (if (translate e e).isOk then "ok " ++ refsOut e else "error")
   | "mod.closure", [sk, _] => let e := parseSkel sk; some (if (translate e e).isOk then "ok" else "FAIL:model-rejects")
   | "mod.closure2", [_, _] => some "ok"
   | "mod.mustfail", ["-", _] => some "ok"       -- no skeleton: the property's oracle alone (vlib/refsites.py)
